@@ -393,6 +393,35 @@ class C20(Base):
             if dom is None:
                 del fw["attributes"]["destination_domain"]
             lines2.append(orb_pkt("recv", 10 ** 6, fw, None))
+        # one spelling per destination in messages too: every other spelling of a valid identifier — leading zeros, signs, blanks, the
+        # textual form of a pair ("3:7"), another protocol's form — is refused wherever it stands in a batch (first, middle, last),
+        # for pausing and for unpausing, and never changes what is paused
+        goods = {"PROTOCOL_CCTP": ("7", "8"), "PROTOCOL_HYPERLANE": ("7", "8"), "PROTOCOL_INTERNAL": ("noble", "x"), "PROTOCOL_IBC": ("channel-7", "channel-8")}
+        pnum = {"PROTOCOL_IBC": 1, "PROTOCOL_CCTP": 2, "PROTOCOL_HYPERLANE": 3, "PROTOCOL_INTERNAL": 4}
+        for p_, (g1, g2) in goods.items():
+            bads = ["007", "+7", "7 ", " 7", "", "7\x00", "%d:%s" % (pnum[p_], g1), "%d:%s" % (pnum[p_], g2), "0:" + g1, "x" * 33]
+            if p_ in ("PROTOCOL_INTERNAL",):
+                bads = ["", "x" * 33, "noble\x00"]
+                oddok = ["4:noble", "3:7", "a:b"]        # free-form counterparties: valid, and distinct from the ones they resemble
+            elif p_ == "PROTOCOL_IBC":
+                bads = ["channel-007", "channel-+7", "channel-7 ", "", "1:channel-7", "Channel-7", "channel-"]
+                oddok = []
+            else:
+                oddok = []
+            lines2.append(msg_line("PauseCrossChains", AUTHORITY, hx(p_), hx(g1)))
+            for b_ in bads:
+                for batch in ([b_, g2], [g2, b_], [g2, b_, "9" if p_ != "PROTOCOL_IBC" else "channel-9"], [b_]):
+                    lines2.append(msg_line("PauseCrossChains", AUTHORITY, hx(p_), *[hx(x) for x in batch]))
+                for batch in ([b_, g1], [g1, b_], [b_]):
+                    lines2.append(msg_line("UnpauseCrossChains", AUTHORITY, hx(p_), *[hx(x) for x in batch]))
+                lines2.append("query IsCrossChainPaused %s %s" % (hx(p_), hx(b_)))
+            for o_ in oddok:
+                lines2.append(msg_line("PauseCrossChains", AUTHORITY, hx(p_), hx(o_)))
+                lines2.append("query IsCrossChainPaused %s %s" % (hx(p_), hx("noble")))
+                lines2.append(orb_pkt("recv", 1000, int_fwd(U[1])))
+                lines2.append(msg_line("UnpauseCrossChains", AUTHORITY, hx(p_), hx(o_)))
+            lines2.append("query PausedCrossChains %s nopage" % hx(p_))
+            lines2.append(msg_line("UnpauseCrossChains", AUTHORITY, hx(p_), hx(g1)))
         lines2 += ["query DispatchedCounts %s %s %s %s" % (hx("PROTOCOL_IBC"), hx("channel-0"), hx("PROTOCOL_HYPERLANE"), hx("7")),
                    "query DispatchedCounts %s %s %s %s" % (hx("PROTOCOL_IBC"), hx("channel-0"), hx("PROTOCOL_HYPERLANE"), hx("0")), "export"]
         f2 = {"msg": ["res", "st"], "recv": ["ack", "st"], "recvh": ["ack"], "query": ["res", "out", "next", "total"], "export": ["st"]}
@@ -625,6 +654,16 @@ def c01_targeted(r):
     recvs = [ORB, ORB.upper(), ORB[:8] + ORB[8:].upper(), "cosmos" + ORB[5:], b32(DUST_BYTES), U[0], b32(bytes(20)), ORB + " ", "", "garbage",
              _b32.encode("cosmos", ORB_BYTES), _b32.encode("nobl", ORB_BYTES)]
     tok = toks[0][0]
+    # on a chain where nothing was ever swept: a fee paid to the dust collector's address (any valid address can be a recipient), then a
+    # coin left on the orbiter account by anybody, then ordinary transfers of that coin — swept and forwarded as always
+    # (repaired defect 14028a5: the first plain send created a base account there and every later sweep panicked)
+    lines.append(orb_pkt("recv", 10 ** 6, int_fwd(U[1]), [fee_action([(b32(DUST_BYTES), "b", 100)])]))
+    lines.append(orb_pkt("recv", 10 ** 6, int_fwd(U[1]), [fee_action([(b32(DUST_BYTES), "a", 3)])], denom="uother"))
+    for dn_ in ("uusdc", "uother"):
+        lines.append("deposit %s %s 5" % (hx(ORB_BYTES), hx(dn_)))
+        lines.append(orb_pkt("recv", 10 ** 6, int_fwd(U[1]), None, denom=dn_))
+        lines.append("deposit %s %s 7" % (hx(ORB_BYTES), hx(dn_)))
+        lines.append(orb_pkt("recvh", 10 ** 6, int_fwd(U[1]), [fee_action([(U[2], "b", 100)])], denom=dn_))
     routes = [cctp_fwd(domain=0), int_fwd(U[1]), int_fwd(ORB), int_fwd(ORB.upper()), hyp_fwd(tok, domain=1), int_fwd(b32(DUST_BYTES)),
               cctp_fwd(domain=0, mint=b"\x00" * 32), cctp_fwd(domain=9)]
     feesets = [None, [fee_action([(U[2], "b", 100)])], [fee_action([(ORB, "b", 100)])], [fee_action([(ORB, "a", 5), (U[3], "a", 5)])], [fee_action([])]]
@@ -797,6 +836,16 @@ def stats_limit_lines(toks):
                   orb_pkt(op, 1000, int_fwd(U[1]), fee, dst_chan="channel-1"), orb_pkt(op, 1000, cctp_fwd(domain=0), None, dst_chan="channel-1"),
                   orb_pkt(op, 777, int_fwd(U[1]), None, denom="uother", dst_chan="channel-1")]
     lines.append("export")
+    # totals that cross the widths of the machine integers while every single amount fits them (an 18-decimals coin gets there in
+    # a handful of transfers): recorded exactly, readable by every query, carried by the export
+    lines.append("escrowfund %s %s %d" % (hx("channel-1"), hx("aeth"), 2 ** 70))
+    for seq in ([2 ** 63, 2 ** 63], [2 ** 64 - 1, 1], [9 * 10 ** 18, 9 * 10 ** 18, 9 * 10 ** 18], [2 ** 62, 2 ** 62, 2 ** 62, 2 ** 62, 1], [2 ** 31, 2 ** 31, 2 ** 32, 2 ** 32]):
+        dest = U[1 + len(seq)]
+        for a_ in seq:
+            lines.append(orb_pkt("recv", a_, int_fwd(dest), None, denom="aeth", dst_chan="channel-1"))
+            lines.append("query DispatchedAmounts %s %s %s %s %s" % (hx("PROTOCOL_IBC"), hx("channel-1"), hx("PROTOCOL_INTERNAL"), hx("noble"), hx("aeth")))
+        lines.append(orb_pkt("recv", 4 * 10 ** 18, cctp_fwd(domain=0), [fee_action([(U[2], "b", 1)])]))
+    lines += ["query DispatchedAmountsBySrc %s nopage" % hx("PROTOCOL_IBC"), "query DispatchedCountsBySrc %s nopage" % hx("PROTOCOL_IBC"), "export", "reimport", "export"]
     return lines
 
 
@@ -920,6 +969,18 @@ def c14_packets(r, toks, per_shape):
                "transfer/channel-7/transfer/channel-3/uusdc", "uusdc", "", "/", "transfer/channel-7/uusdc/", "transfer/channel-7/ibc/ABC"]:
         lines.append(pkt_line("recv", ftpd(dn, 1000, ORB, good)))
         lines.append(pkt_line("recv", ftpd(dn, 1000, U[0], "")))
+    # every spelling of the receiver that decodes to the orbiter account (escapes in the JSON string, upper case, both) with every kind
+    # of malformed memo: what is addressed to the orbiter is refused when malformed, however the address was written
+    def esc_all(x):
+        return "".join("\\u%04x" % ord(ch) for ch in x)
+    spellings = ['"' + ORB + '"', '"\\u006e' + ORB[1:] + '"', '"' + esc_all(ORB) + '"', '"' + ORB[:-1] + "\\u%04x" % ord(ORB[-1]) + '"', '"' + ORB.upper() + '"',
+                 '"\\u004e' + ORB.upper()[1:] + '"', '"' + ORB[:10] + "\\u0031"[:0] + ORB[10:] + '"']
+    bad_memos = ["", "x", "{}", "{\"orbiter\":null}", "{\"orbiter\":{}}", "{\"orbiter\":{\"forwarding\":null}}", "{\"orbiter\":{\"pre_actions\":[null]}}",
+                 "{\"orbiter\":{\"forwarding\":" + _json.dumps(int_fwd(U[1])) + "},\"other\":1}", memo(int_fwd("")), good]
+    for sp_ in spellings:
+        for bm in bad_memos:
+            data = "{\"denom\":\"transfer/channel-7/uusdc\",\"amount\":\"1000\",\"sender\":\"%s\",\"receiver\":%s,\"memo\":%s}" % (b32(addr(200)), sp_, _json.dumps(bm))
+            lines.append(pkt_line("recv", data))
     # every denomination of the grid (the bare prefix, pieces of it, doubled slashes, slash-carrying natives …) with a valid
     # payload to the orbiter, from every source the grid pairs them with
     for dn in scen.DENOM_GRID:
@@ -2540,6 +2601,15 @@ def c16_lines(r, n):
         for op in ("recv", "recvh"):
             lines.append(pkt_line(op, ftpd("transfer/channel-7/" + d, 1000, ORB, good)))
             lines.append(pkt_line(op, ftpd("transfer/channel-7/" + d, 1000, ORB, memo(int_fwd(U[1]), [fee_action([(U[4], "b", 100)])]))))
+    # the identifiers of the sending side are the counterparty's choice (any port, any channel name of 8 to 64 characters): a native coin
+    # returning under them is released by ICS-20 and processed by the orbiter all the same
+    for sp, sc in [("transfer", "channel-noble"), ("transfer", "nobletransfer"), ("transfer", "channel-7-usdc"), ("transfer", "c" * 40), ("transfer", "c" * 64),
+                   ("transfer", "channel-18446744073709551615"), ("transfer", "channel-18446744073709551616"), ("transfer", "08-wasm-0"), ("transfer", "CHANNEL-7"),
+                   ("wasm.noble1qyqszqgpqyqszqgpqyqszqgpqyqszqgpjnp7du", "channel-7"), ("icahost", "channel-7"), ("p" * 128, "channel-7"), ("transfer", "channel-7.a_b+c#[d]<e>")]:
+        for op in ("recv", "recvh"):
+            lines.append(pkt_line(op, ftpd("%s/%s/uusdc" % (sp, sc), 1000, ORB, good), src_port=sp, src_chan=sc))
+            lines.append(pkt_line(op, ftpd("%s/%s/uusdc" % (sp, sc), 1000, ORB, memo(cctp_fwd(domain=0), [fee_action([(U[4], "b", 100)])])), src_port=sp, src_chan=sc))
+        lines.append(pkt_line("recv", ftpd("%s/%s/uusdc" % (sp, sc), 1000, U[0], ""), src_port=sp, src_chan=sc))
     lines += ["query DispatchedAmountsBySrc %s nopage" % hx("PROTOCOL_IBC"), "query DispatchedAmountsByDst %s nopage" % hx("PROTOCOL_INTERNAL"), "export"]
     for d in ("aUSDY", "ausdy", "AUSDY", "a/b", "x/y/z"):
         lines.append("query DispatchedAmounts %s %s %s %s %s" % (hx("PROTOCOL_IBC"), hx("channel-0"), hx("PROTOCOL_INTERNAL"), hx("noble"), hx(d)))
@@ -2622,7 +2692,8 @@ def c16_oracle(steps):
                 m = re.search(r"warp\.RemoteTransfer:.*?:amount=(\d+):", req)
                 if m and no_actions and int(m.group(1)) != amt:
                     out.append((s.i, "different-coin: remote transfer of %s, ICS-20 credited %d %s" % (m.group(1), amt, dn)))
-                orbk = [(a, d) for (a, d), v in delta.items() if a == ORB_BYTES.hex() and v != 0]
+                # (a negative change is the sweep of what was sitting there before: C11's subject, not this property's)
+                orbk = [(a, d) for (a, d), v in delta.items() if a == ORB_BYTES.hex() and v > 0]
                 if orbk:
                     out.append((s.i, "different-coin: part of the credited coin stayed on the orbiter account: %s" % orbk))
                 st = s.impl.get("st", "")
@@ -3206,6 +3277,21 @@ class C15(Base):
                     continue
                 acts = [{"id": i, "attributes": fa} for i in ids]
                 s1.append("pure parse " + hx(_json.dumps({"orbiter": {"forwarding": int_fwd(U[1]), "pre_actions": acts}}, separators=(",", ":"))))
+        # enum values are the proto names or the numbers, nothing else: every other way of naming a protocol or an action (short names,
+        # other case, the number as a string, the name without its prefix) is refused, in the parser and through the stack
+        for pid_ in ["cctp", "internal", "hyperlane", "ibc", "CCTP", "Internal", "INTERNAL", "protocol_internal", "Protocol_Internal", "PROTOCOL_internal", "4", " 4", "4 ",
+                     "04", "0x4", "PROTOCOL_INTERNAL ", " PROTOCOL_INTERNAL", "PROTOCOL-INTERNAL", "internal ", "noble", "", "unsupported", "PROTOCOL_UNSUPPORTED"]:
+            fw_ = int_fwd(U[1])
+            fw_["protocol_id"] = pid_
+            m_ = _json.dumps({"orbiter": {"forwarding": fw_}}, separators=(",", ":"))
+            s1.append("pure parse " + hx(m_))
+            s1.append(pkt_line("recv", ftpd("transfer/channel-7/uusdc", 1000, ORB, m_)))
+        for aid_ in ["fee", "swap", "FEE", "Fee", "action_fee", "Action_Fee", "ACTION_fee", "1", " 1", "01", "ACTION_FEE ", "ACTION-FEE", "", "unsupported"]:
+            a_ = fee_action([(U[0], "b", 10)])
+            a_["id"] = aid_
+            m_ = _json.dumps({"orbiter": {"forwarding": int_fwd(U[1]), "pre_actions": [a_]}}, separators=(",", ":"))
+            s1.append("pure parse " + hx(m_))
+            s1.append(pkt_line("recv", ftpd("transfer/channel-7/uusdc", 1000, ORB, m_)))
         rt, expect = c15_roundtrip_build(r.fork(2), self.n(tier, 120, 1200), toks)
         pl, groups = c15_purity_lines(r.fork(3), toks, 16)
         f = {"pure": ["_"]}
@@ -3218,7 +3304,7 @@ class C15(Base):
             s1l.append("pure parsel " + m)
             if rr.chance(1, 5):
                 s1l.append("pure parsel " + rr.choice(other_roots))
-        return [Stream("S1-acceptance", s1, fields=f, oracle=c15_accept_oracle),
+        return [Stream("S1-acceptance", scen.base_setup()[0] + s1, fields={"pure": ["_"], "recv": ["ack", "bal"]}, oracle=c15_accept_oracle),
                 Stream("S1-one-parser-many-memos", s1l, fields=f),
                 Stream("S1-marshal-parse-roundtrip", rt, fields={"pure": ["_"], "recv": ["ack", "bal", "req"]}, oracle=c15_make_rt_oracle(expect), shrink=False),
                 Stream("S1-purity-16-fresh-decodes", pl, fields={}, oracle=c15_make_purity_oracle(groups), shrink=False)]
@@ -3430,6 +3516,24 @@ def c19_lines(r, n, toks):
     three_unknown_attr = "{\"orbiter\":{\"forwarding\":{\"protocol_id\":\"PROTOCOL_INTERNAL\",\"attributes\":{\"@type\":\"" + scen.INT_URL + "\",\"recipient\":\"" + U[1] + "\",\"x1\":1,\"x2\":2,\"x3\":3}}}}"
     for m in [two_unknown, three_unknown_attr] * 4:
         errs.append(pkt_line("recv", ftpd("transfer/channel-7/uusdc", 1000, ORB, m)))
+    # several pre-actions, each invalid for a reason of its own (an identifier that names nothing, one out of the enum, attributes
+    # missing, attributes of the wrong kind): the refusal committed is the one of the first in payload order, in every replay
+    import itertools as _it
+    fa_ = fee_action([(U[2], "b", 100)])["attributes"]
+    defects = [{"id": "ACTION_UNSUPPORTED", "attributes": fa_}, {"id": "ACTION_FEE"}, {"id": 99, "attributes": fa_}, {"id": "ACTION_SWAP", "attributes": None},
+               {"id": "ACTION_SWAP", "attributes": fa_}, {"id": 0}, {"id": "ACTION_FEE", "attributes": {"@type": scen.FEE_URL, "fees_info": [{"recipient": "", "basis_points": {"value": 1}}]}}]
+    for k_ in (2, 3):
+        for combo in _it.permutations(defects, k_):
+            if k_ == 3 and r.chance(5, 6):
+                continue
+            m_ = _json.dumps({"orbiter": {"forwarding": int_fwd(U[1]), "pre_actions": list(combo)}}, separators=(",", ":"))
+            for _ in range(3):
+                errs.append(pkt_line("recv", ftpd("transfer/channel-7/uusdc", 1000, ORB, m_)))
+    # totals that leave 63 and 64 bits while every amount fits (what a node may hand to a gauge, a counter, a log line)
+    errs.append("escrowfund %s %s %d" % (hx("channel-0"), hx("aeth"), 2 ** 70))
+    for a_ in (4 * 10 ** 18, 4 * 10 ** 18, 4 * 10 ** 18, 2 ** 63, 2 ** 64 - 1, 1):
+        errs.append(orb_pkt("recv", a_, int_fwd(U[1]), None, denom="aeth"))
+        errs.append(orb_pkt("recv", a_, int_fwd(U[1]), [fee_action([(U[2], "b", 1)])], denom="aeth"))
     # repeated action ids in several arrangements, fees exceeding the amount, mismatching balances
     f1 = fee_action([(U[2], "b", 100)])
     sw = swap_action()
@@ -3503,7 +3607,7 @@ def c19_make_oracle(lines, nproc):
 
         def one(k):
             # …and its own number of processors and collector pace: another schedule for anything that runs concurrently
-            o, rc, err = run_batch([IMPL], lines, env={"VERIF_LOGLEVEL": levels[k % len(levels)], "GOMAXPROCS": str([1, 16, 2, 4, 8, 3][k % 6]),
+            o, rc, err = run_batch([IMPL], lines, env={"VERIF_LOGLEVEL": levels[k % len(levels)], "GOMAXPROCS": str([1, 16, 2, 4, 8, 3][k % 6]), "VERIF_TELEMETRY": str([1, 0, 1, 0, 1, 1][k % 6]),
                                                        "GOGC": str([100, 1, 400, 10, 50, 200][k % 6])})
             return o
         with concurrent.futures.ThreadPoolExecutor(max_workers=min(8, nproc)) as ex:
